@@ -3,7 +3,7 @@ import json
 import re
 
 from ..common import Check, coq_eval, coq_codes, harness
-from ..translate import gen_c13_span
+from ..translate import gen_c13_span, gen_lex_tables
 from .c13_templates import TEMPLATES, parse_template, interp_templates
 
 TRUSTED = [
@@ -234,6 +234,7 @@ def model_composed(v):
 def run():
     ck = Check("C13", level="proof")
     ginfo = gen_c13_span.generate()
+    linfo = gen_lex_tables.generate()      # C17's translator (read-only use): Model/LexerGen.v needs Gen/GenLexTables.v
     pr = ck.prove()
     model_ok = True     # Model/Span.vo does not depend on Gen/: the model stays executable when the translator fails closed
     rng = ck.rng
@@ -357,6 +358,21 @@ def run():
             return "F9-byte-spans-read-as-chars"
         return None
 
+    # Error::new_simple sites of the regenerated inventory: which were seen, with or without a span
+    site_groups = {}
+    for st in (ginfo.get("simple_sites") or []):
+        g = site_groups.setdefault((st["file"], st["kind"], st["text"]), {"file": st["file"], "kind": st["kind"], "text": st["text"], "lines": [],
+                                                                         "rx": gen_c13_span.site_regex(st), "with_span": 0, "without_span": 0, "example": None})
+        g["lines"].append(st["line"])
+
+    def note_sites(e, src):
+        r = e.get("reason") or ""
+        for g in site_groups.values():
+            if g["rx"] is not None and g["rx"].match(r):
+                g["with_span" if e.get("span") is not None else "without_span"] += 1
+                if g["example"] is None:
+                    g["example"] = src[:120]
+
     for c in cases:
         t = tpls[c["ti"]]
         a = c["ans"]
@@ -383,6 +399,7 @@ def run():
         errs = a["err"]
         for ei, e in enumerate(errs):
             primary = ei == 0
+            note_sites(e, c["src"])
             want_tok = c["tok"] if primary and t.get("check_tok", True) else None
             err_file_ok = True
             if c["multi"] and e.get("span") is not None and primary:
@@ -580,6 +597,59 @@ def run():
                 ck.violation("Model/Span.v map_span differs from the parser's error span on %r: model %s, impl %s" % (c["src"], v, want),
                              {"src": c["src"], "model": str(v), "impl": str(want), "kind": "correspondence"})
 
+    # ---------------------------------------------------------------- 3d. interpolation rebasing over the string grammar
+    # Model/InterpSpan.v predict_reported: from the text of the s-/f-string token and the true place of the offending text
+    # inside it, the span the code reports (right or WRONG: the known-defect templates are predicted exactly, too)
+    hdr_i = ("From Coq Require Import List NArith.\nFrom PV Require Import Model.Lexer Model.LexerGen Model.Span Model.InterpSpan.\n"
+             "Import ListNotations.\n")
+    ic, exprs = [], []
+    seen_i = set()
+    for c in cases:
+        tp = tpls[c["ti"]]
+        if not tp.get("interp") or c["multi"] or not c["lex_ok"] or "err" not in c["ans"] or not c["ans"]["err"] or c["src"] in seen_i or len(c["src"]) > 400:
+            continue
+        e0 = c["ans"]["err"][0]
+        if not e0.get("span"):
+            continue
+        seen_i.add(c["src"])
+        sb = c["src"].encode("utf-8")
+        bs = len(c["src"][:c["off"]].encode("utf-8"))
+        be = bs + len(c["tok"].encode("utf-8"))
+        tk = [x for x in c["lex"]["ok"] if x["s"] <= bs and be <= x["e"] and x["e"] > x["s"] and sb[x["s"]:x["s"] + 1] in (b"s", b"f")]
+        if len(tk) != 1:
+            continue
+        tk = tk[0]
+        txt = sb[tk["s"]:tk["e"]].decode("utf-8")
+        ic.append((c, tk, e0))
+        exprs.append("predict_reported gen_tables %s %d %d" % (coq_codes(txt), bs - tk["s"], be - tk["s"]))
+    cap = ck.n(300, 2500)
+    if len(ic) > cap:
+        idx = sorted(rng.sample(range(len(ic)), cap))
+        ic = [ic[i] for i in idx]; exprs = [exprs[i] for i in idx]
+    try:
+        vals = coq_eval(hdr_i, exprs)
+    except RuntimeError as ex:
+        vals = []
+        ck.coverage["model_eval_error"] = str(ex)[-400:]
+    for (c, tk, e0), v in zip(ic, vals):
+        ck.count("corr-interp-rebase", c["src"])
+        real = (e0["span"]["start"], e0["span"]["end"])
+        if v == "None":
+            ck.violation("Model/InterpSpan.v cannot place the marked text in the string token of %r" % c["src"], {"src": c["src"], "kind": "correspondence"})
+            continue
+        x = v[1]
+        pred = (tk["s"] + x[0], tk["s"] + x[1])
+        quotes, esc = x[2][0], bool(x[2][1])
+        sb0 = len(c["src"][:c["off"]].encode("utf-8"))
+        right = pred == (sb0, sb0 + len(c["tok"].encode("utf-8")))
+        ck.stat("corr-interp-rebase", "quotes=%d,escape-before=%s,%s" % (quotes, esc, "right" if right else "wrong"))
+        if right != (quotes == 1 and not esc):
+            ck.violation("interp_reported is %s for %d quote(s), escape before: %s on %r (contradicts c13_interp_rebase_exact)" % ("right" if right else "wrong", quotes, esc, c["src"]),
+                         {"src": c["src"], "kind": "correspondence"})
+        if pred != real:
+            ck.violation("Model/InterpSpan.v interp_reported differs from the span reported for the error inside the string of %r: model %s, impl %s" % (c["src"], pred, real),
+                         {"src": c["src"], "model": str(pred), "impl": str(real), "kind": "correspondence"})
+
     # ---------------------------------------------------------------- 4. respan_std vs Resolver::fold_function (hook verif:respan)
     # every error that leaves fold_function logs (span of the error of the inner fold, span of the call, span of the
     # returned error, branch taken); the model is evaluated on the same two inputs.  Fails closed without the hook.
@@ -651,9 +721,25 @@ def run():
             ck.violation("the reported span %s is not what `composed` makes of the span %s returned by the outermost fold_function" % (a["err"][0].get("span"), out),
                          {"src": c["src"], "out": out, "reported": a["err"][0].get("span"), "kind": "chain"})
 
+    # evidence: located-ness per Error::new_simple site
+    gl = sorted(site_groups.values(), key=lambda g: (g["file"], g["lines"][0]))
+    ck.coverage["new_simple_sites"] = {
+        "sites": sum(len(g["lines"]) for g in gl), "distinct_messages": len(gl),
+        "seen_with_span": [{"site": "%s:%s" % (g["file"], ",".join(map(str, g["lines"]))), "text": g["text"][:90], "cases": g["with_span"], "also_without_span": g["without_span"]}
+                           for g in gl if g["with_span"]],
+        "seen_only_without_span": [{"site": "%s:%s" % (g["file"], ",".join(map(str, g["lines"]))), "text": g["text"][:90], "cases": g["without_span"], "example": g["example"]}
+                                   for g in gl if not g["with_span"] and g["without_span"]],
+        "not_reached": [{"site": "%s:%s" % (g["file"], ",".join(map(str, g["lines"]))), "text": g["text"][:90]}
+                        for g in gl if g["rx"] is not None and not g["with_span"] and not g["without_span"]],
+        "message_not_in_source": [{"site": "%s:%s" % (g["file"], ",".join(map(str, g["lines"]))), "text": g["text"][:90]} for g in gl if g["rx"] is None],
+        "note": "a message shared by several sites (same file, same text) is one row; located-ness evidence = an error of that message was "
+                "returned with a span and passed every clause of the oracle (or was classified as a known finding)",
+    }
     ck.proof_broken_violation(found_input=bool(ck.violations))
     if "error" in ginfo:
         ck.coverage["translator_error"] = ginfo["error"]
+    if "error" in linfo:
+        ck.coverage["translator_error_lex_tables"] = linfo["error"]
     ck.assumptions += ["lines are delimited by the Unicode mandatory breaks (what ariadne implements); editors that do not treat VT/FF/NEL/LS/PS as line ends number lines differently",
                        "a position at the very end of a text that ends with a terminator is reported on the last line (ariadne's convention), accepted by the oracle",
                        "spans of secondary errors (after the first) are checked for bounds/location/display but not against the template's offending token"]
